@@ -981,6 +981,13 @@ func (s *Service) runPipeline(ctx context.Context, rp *runnablePipeline) error {
 				return err
 			}
 		default:
+			if rp.forceStopped.Load() && !cerrors.IsFatalError(err) {
+				// The run was force stopped while it was already failing with a
+				// transient error: tomb kept that first error, so the fatal
+				// force-stop mark was lost. Restore it - a force-stopped
+				// pipeline must end failed-by-force-stop, never Recovering.
+				err = cerrors.FatalError(cerrors.Errorf("%w (the run was already failing with: %v)", pipeline.ErrForceStop, err))
+			}
 			if cerrors.IsFatalError(err) {
 				// we use %+v to get the stack trace too
 				if err := s.pipelines.UpdateStatus(ctx, rp.pipeline.ID, pipeline.StatusDegraded, fmt.Sprintf("%+v", err)); err != nil {
